@@ -350,6 +350,12 @@ func cmdRun(args []string) int {
 	if dump := os.Getenv("VERIF_DUMP_LINES"); dump != "" {
 		os.WriteFile(dump, []byte(strings.Join(lines, "\n")+"\n"), 0o644)
 	}
+	if *driver == "" {
+		// the model driver does not build against the regenerated facts (the check reports that as a broken proof
+		// obligation): the oracles on the implementation still run, so a failing input is still searched for
+		fmt.Printf("corr %s: no model driver, oracle-only run\n", p.ID)
+		lines, idx = nil, nil
+	}
 	models, err := runDriver(*driver, lines)
 	if err != nil {
 		fmt.Fprintf(os.Stderr, "%v\n", err)
